@@ -77,7 +77,7 @@ Section Pieces.
                 match e with
                 | [1; _] => match po_rets p with [u] => nz u | _ => false end
                 | [4; _] | [12; _] => u_dropped_last
-                | [5; _] | [6; _; _] => true
+                | [5; g] | [6; _; g] => N.eqb id g
                 | [9; g] => N.eqb id g
                 | _ => false
                 end) u_newcalls).
